@@ -167,6 +167,9 @@ func rulesC19(c *Ctx) {
 		"state root hash==AppHash":     beq(`param:blk\.StateRoot\.Hash\[:\]`, LB+`AppHash`),
 		"meta header==light header":    beq(`\*alloc:\*consensus/cometbft/api\.BlockMeta\.Header`, `github\.com/cometbft/cometbft/proto/tendermint/types\.\(\*Header\)\.Marshal\(github\.com/cometbft/cometbft/types\.\(\*Header\)\.ToProto\(\*+param:lb\.SignedHeader\.Header\)\)#0`),
 		"last commit hash":             beq(`github\.com/cometbft/cometbft/types\.\(\*Commit\)\.Hash\(github\.com/cometbft/cometbft/types\.CommitFromProto\(.*\)#0\)`, LB+`LastCommitHash`),
+		// the commit hash covers the signatures only; height and block id are stated by the verified header (F11)
+		"last commit block id==header.LastBlockID":              `^github\.com/cometbft/cometbft/types\.\(BlockID\)\.Equals\(\*github\.com/cometbft/cometbft/types\.CommitFromProto\(.*\)#0\.BlockID,` + LB + `LastBlockID\)$`,
+		"last commit height==height-1 (0 for the empty commit)": `^\*github\.com/cometbft/cometbft/types\.CommitFromProto\(.*\)#0\.Height == (phi\()?\(?` + LB + `Height - 1\)`,
 	})
 	req(pkStateless+".verifyBlockResults", map[string]string{
 		"results.Height==lb.Height": `^\*param:results\.Height == ` + LB + `Height$`,
